@@ -172,6 +172,31 @@ def _extract_run_facts(t, core, mu, mc, ll, mrun, ev, run):
         raise Unavailable("load_sampler_state: update_from_dict(d) not found")
     t["resumeDefaultOnlyIfNone"] = "1" if ("if self.state.get_current(key) is None:" in lsrc
                                            and "self.state.set_current(key, default_val)" in lsrc) else "0"
+    # -- run_sampling: how a run starts (which branch initialises / keeps the counter)
+    rs = _func(core, "SamplerCore", "run_sampling")
+    chain = _if_chain(rs)
+
+    def norm_start(test, last):
+        body = None
+        for st in rs.body:
+            if isinstance(st, ast.If):
+                node = st
+                while True:
+                    if _src(node.test) == test:
+                        body = node.body
+                    if len(node.orelse) == 1 and isinstance(node.orelse[0], ast.If):
+                        node = node.orelse[0]
+                    else:
+                        if test == "else":
+                            body = node.orelse
+                        break
+                break
+        srcs = " ; ".join(_src(b) for b in (body or []))
+        act = ("resume" if "self._initialize_from_resume(resume_state_path)" in srcs else
+               "fresh" if "self._initialize_fresh()" in srcs else
+               "continue" if ("_initialize" not in srcs and "set_current('calls'" not in srcs) else "?")
+        return ({"resume_state_path is not None": "path", "self.state.get_history_length() > 0": "history", "else": "else"}.get(test, test), act)
+    t["runStart"] = [norm_start(a, b) for a, b in chain]
     # -- _log_like: statements per dispatch branch, references to the user's function
     stmts = []
     for st in ll.body:
@@ -236,6 +261,49 @@ def _extract_run_facts(t, core, mu, mc, ll, mrun, ev, run):
     t["warmupLikelihoodArgs"] = [batch_of(a, warm_if[0].body) for a in like_calls(warm_if[0].body)]
     t["mutateOtherLikelihoodArgs"] = like_calls([st for st in mrun.body if st is not warm_if[0]])
     t["warmupEndsWithReturn"] = "1" if isinstance(warm_if[0].body[-1], ast.Return) else "0"
+    # -- the warm-up redraw loop: `n_drawn = <init>`; `while <guard>: if n_drawn >= <cap>: raise …; …; logl, blobs = self.log_likelihood(x);
+    #    n_drawn += <step>`; the counter then advances by `n_drawn`
+    wb = warm_if[0].body
+    loops = [st for st in wb if isinstance(st, ast.While)]
+    inits = [st for st in wb if isinstance(st, ast.Assign) and len(st.targets) == 1 and _src(st.targets[0]) == "n_drawn"]
+    if t["warmupIncrement"] == "n_drawn":
+        if len(loops) != 1 or len(inits) != 1 or loops[0].orelse:
+            raise Unavailable("Mutator.run warm-up: expected `n_drawn = e` and exactly one while loop")
+        lp = loops[0]
+        augs = [n for n in ast.walk(lp) if isinstance(n, ast.AugAssign) and _src(n.target) == "n_drawn"]
+        others = [n for st in wb if st is not lp for n in ast.walk(st) if isinstance(n, ast.AugAssign) and _src(n.target) == "n_drawn"]
+        reassign = [n for n in ast.walk(lp) if isinstance(n, ast.Assign) and any(_src(x) == "n_drawn" for x in n.targets)]
+        if len(augs) != 1 or not isinstance(augs[0].op, ast.Add) or others or reassign or augs[0] not in lp.body:
+            raise Unavailable("Mutator.run warm-up: expected exactly one top-level `n_drawn += e` inside the loop and none outside")
+        caps = [st for st in lp.body if isinstance(st, ast.If) and any(isinstance(b, ast.Raise) for b in st.body)]
+        cap = "none"
+        if len(caps) == 1 and isinstance(caps[0].test, ast.Compare) and _src(caps[0].test.left) == "n_drawn" \
+                and len(caps[0].test.ops) == 1 and isinstance(caps[0].test.ops[0], ast.GtE):
+            cap = _src(caps[0].test.comparators[0])
+        elif caps:
+            raise Unavailable("Mutator.run warm-up: cap test not of the form `n_drawn >= e`")
+        inside = like_calls(lp.body)
+        before = like_calls([st for st in wb if st.lineno < lp.lineno])
+        after = like_calls([st for st in wb if st.lineno > lp.lineno])
+        order_ok = [type(st).__name__ for st in lp.body if st in (caps + [augs[0]]) or like_calls([st])]
+        # each call is described by the construction of ITS OWN argument (before the loop / inside the loop body)
+        t["warmupLikelihoodArgs"] = ([batch_of(a, [st for st in wb if st.lineno < lp.lineno]) for a in before]
+                                     + [batch_of(a, lp.body) for a in inside] + [batch_of(a, wb) for a in after])
+        t["warmupDrawnInit"] = _src(inits[0].value)
+        t["warmupDrawnStep"] = _src(augs[0].value)
+        t["warmupCap"] = cap
+        t["warmupLoop"] = f"while {_src(lp.test)}"
+        t["warmupLoopCalls"] = f"before={len(before)} inside={len(inside)} after={len(after)}"
+        t["warmupLoopOrder"] = ",".join(order_ok)
+    else:
+        if loops or inits:
+            raise Unavailable("Mutator.run warm-up: loop present but the counter does not advance by n_drawn")
+        t["warmupDrawnInit"] = t["warmupIncrement"]
+        t["warmupDrawnStep"] = "0"
+        t["warmupCap"] = "none"
+        t["warmupLoop"] = "none"
+        t["warmupLoopCalls"] = f"before={len(like_calls(wb))} inside=0 after=0"
+        t["warmupLoopOrder"] = ""
     kw = [k for n in ast.walk(mrun) if isinstance(n, ast.Call) and _src(n.func) == "parallel_mcmc" for k in n.keywords if k.arg == "log_likelihood"]
     if len(kw) != 1:
         raise Unavailable("Mutator.run: parallel_mcmc(log_likelihood=…) not found")
@@ -269,10 +337,11 @@ def render(t):
     def q(x):
         return '"' + x.replace('\\', '\\\\').replace('"', '\\"') + '"'
     for k in ("freshCalls", "resumeDefault", "resumeDefaultOnlyIfNone", "logLikeBranchStmts", "logLikeUserRefs", "wrapperCall",
-              "warmupEndsWithReturn", "mcmcLikelihoodArg", "mcmcLoop"):
+              "warmupEndsWithReturn", "mcmcLikelihoodArg", "mcmcLoop", "warmupDrawnInit", "warmupDrawnStep", "warmupCap", "warmupLoop", "warmupLoopCalls", "warmupLoopOrder"):
         L.append(f"def {k} : String := {q(t[k])}")
     for k in ("wrapperInit", "warmupLikelihoodArgs", "mutateOtherLikelihoodArgs", "evaluateLikelihoodArgs", "stepBatchBuilt", "proposalRows"):
         L.append(f"def {k} : List String := [" + ", ".join(q(x) for x in t[k]) + "]")
+    L.append("def runStart : List (String × String) := [" + ", ".join(f"({q(a)}, {q(b)})" for a, b in t["runStart"]) + "]")
     L.append("def callsWriters : List (String × String) := [" + ", ".join(f"({q(a)}, {q(b)})" for a, b in t["callsWriters"]) + "]")
     L += ["", "end Gen.Dispatch", ""]
     return "\n".join(L)
